@@ -30,7 +30,7 @@ ASSUMPTIONS = [
     'real OS scheduling is sampled (nprocesses 1..8, random delays), not enumerated; the theorem covers every schedule of the model',
     'envelope_opts / extrema_opts are not exercised here (DESIGN 9-D5 belongs to C06)',
 ]
-RULE = ('signals: tones/chirp/noise/walk/intermittent/dyadic/offset families, n in 16..256 (quick) / ..512 (thorough), 3 scales; '
+RULE = ('signals: tones/chirp/noise/walk/intermittent/dyadic/offset families, n in 16..256 (quick) / ..512 (thorough), 3 scales, plus 30% very short (6..12 samples, mixed continue flags) for get_next_imf_mask; '
         'get_next_imf_mask: z in (0, 0.5) incl. 0.25 and 0, amp incl. 0, nphases 1..8, imf_opts from 5 settings; '
         'mask_sift: frequency source zc / if / float / list, step factor 2, 3, 1.5, amplitude mode abs / ratio_sig / ratio_imf, '
         'scalar and array amplitudes, cap 1..6, nphases 1..8; every case is run with nprocesses = 1 and further values in 2..8 '
@@ -90,10 +90,12 @@ class Gnim(_Cached):
         ]
 
     def generate(self, rng, tier):
-        n_cases = 260 if tier == 'thorough' else 34
+        n_cases = 300 if tier == 'thorough' else 60
         sizes = SIZES_T if tier == 'thorough' else SIZES_Q
         for _ in range(n_cases):
             sig = _msk.rand_signal_spec(rng, sizes)
+            if rng.random() < 0.3:      # very short signals: the extractions' continue flags differ between phases
+                sig.update(n=rng.choice([6, 8, 10, 12]), fam=rng.choice(['walk', 'noise', 'tones']))
             r = rng.random()
             z = 0.25 if r < 0.1 else 0.0 if r < 0.13 else rng.uniform(0.005, 0.49)
             r = rng.random()
@@ -198,6 +200,10 @@ class Gnim(_Cached):
             t.append('error=' + out['error'])
         else:
             t.append('flag=%d' % int(out['flag']))
+            sp = self._spec(case)[1]
+            if sp is not None:
+                fl = [r[3] for r in sp[2]]
+                t.append('phase-flags=' + ('mixed' if any(fl) and not all(fl) else 'uniform'))
         return t
 
     def nontrivial(self, case, out):
@@ -244,7 +250,7 @@ class MaskSift(_Cached):
         ]
 
     def generate(self, rng, tier):
-        n_cases = 110 if tier == 'thorough' else 12
+        n_cases = 120 if tier == 'thorough' else 22
         sizes = SIZES_T if tier == 'thorough' else [32, 64, 100, 128, 256]
         for _ in range(n_cases):
             sig = _msk.rand_signal_spec(rng, sizes)
